@@ -877,5 +877,123 @@ theorem swap01_range (i : ℕ) : (Equiv.swap 0 1 : Equiv.Perm ℕ) i < 2 ↔ i <
   · simp
   · rw [Equiv.swap_apply_of_ne_of_ne (by omega) (by omega)]
 
+/-! ### histories in which the caller rewrites its own arrays -/
+
+section steps
+variable {α : Type} [Zero α] [One α] [Add α] [Sub α] [Mul α] [Div α] [Neg α] [Transc α]
+
+theorem read_write (w : World α) (id id' : Nat) (v : Array α) (h : id < w.heap.size) :
+    (w.write id v).read id' = if id' = id then v else w.read id' := by
+  unfold World.write World.read
+  by_cases e : id' = id
+  · subst e; simp [Array.getD_eq_getD_getElem?, h]
+  · have e' : id ≠ id' := fun x => e x.symm
+    simp [Array.getD_eq_getD_getElem?, Array.getElem?_setIfInBounds, e, e']
+
+theorem size_write (w : World α) (id : Nat) (v : Array α) : (w.write id v).heap.size = w.heap.size := by
+  simp [World.write]
+
+/-- what the caller knows about its arrays: contents by id -/
+def stepsPure (kind : Kind) (tb : Tables α) (inter : Nat → Nat → Nat → α) :
+    (Nat → Array α) → List (Step α) → List (Array α)
+  | _, [] => []
+  | h, .call arg T :: rest =>
+    (gammaF kind tb inter (match arg with | .nd id => h id | .seq v => v | .ndOther id => h id) T).gamma
+      :: stepsPure kind tb inter h rest
+  | h, .set id v :: rest => stepsPure kind tb inter (fun j => if j = id then v else h j) rest
+
+/-- final contents of the caller's arrays: only its own writes count -/
+def stepsHeap : (Nat → Array α) → List (Step α) → (Nat → Array α)
+  | h, [] => h
+  | h, .call _ _ :: rest => stepsHeap h rest
+  | h, .set id v :: rest => stepsHeap (fun j => if j = id then v else h j) rest
+
+def Step.ok (N : Nat) : Step α → Prop
+  | .call (.nd id) _ => id < N
+  | .call (.seq _) _ => True
+  | .call (.ndOther id) _ => id < N
+  | .set id _ => id < N
+
+theorem runSteps_spec (kind : Kind) (tb : Tables α) (inter : Nat → Nat → Nat → α) (N : Nat) (steps : List (Step α)) :
+    ∀ (w : World α) (h : Nat → Array α), N ≤ w.heap.size → (∀ id, id < N → w.read id = h id) →
+      (∀ s, s ∈ steps → s.ok N) →
+      (w.runSteps kind tb inter steps).2 = stepsPure kind tb inter h steps
+      ∧ ∀ id, id < N → (w.runSteps kind tb inter steps).1.read id = stepsHeap h steps id := by
+  induction steps with
+  | nil => intro w h _ hh _; exact ⟨rfl, fun id hid => hh id hid⟩
+  | cons s steps ih =>
+    intro w h hN hh hok
+    have hok' : ∀ s', s' ∈ steps → s'.ok N := fun s' hs => hok s' (by simp [hs])
+    cases s with
+    | call arg T =>
+      have hs := hok (.call arg T) (by simp)
+      have hargok : w.argOk arg := by
+        cases arg with
+        | nd id => exact Nat.lt_of_lt_of_le hs hN
+        | seq v => trivial
+        | ndOther id => exact Nat.lt_of_lt_of_le hs hN
+      obtain ⟨hframe, _, _, hgrow, hres⟩ := call_spec w kind tb inter arg T hargok
+      have hN' : N ≤ (w.call kind tb inter arg T).1.heap.size := Nat.le_of_lt (Nat.lt_of_le_of_lt hN hgrow)
+      have hh' : ∀ id, id < N → (w.call kind tb inter arg T).1.read id = h id :=
+        fun id hid => by rw [hframe id (Nat.lt_of_lt_of_le hid hN), hh id hid]
+      obtain ⟨ih1, ih2⟩ := ih _ h hN' hh' hok'
+      refine ⟨?_, ih2⟩
+      simp only [World.runSteps, stepsPure, ih1, hres]
+      congr 2
+      cases arg with
+      | nd id => simp only [World.argContents]; rw [hh id hs]
+      | seq v => rfl
+      | ndOther id => simp only [World.argContents]; rw [hh id hs]
+    | set id v =>
+      have hs : id < N := hok (.set id v) (by simp)
+      have hlt := Nat.lt_of_lt_of_le hs hN
+      have hh' : ∀ j, j < N → (w.write id v).read j = (fun j => if j = id then v else h j) j := by
+        intro j hj
+        rw [read_write w id j v hlt]
+        by_cases e : j = id <;> simp [e, hh j hj]
+      obtain ⟨ih1, ih2⟩ := ih (w.write id v) _ (by rw [size_write]; exact hN) hh' hok'
+      exact ⟨by simpa [World.runSteps, stepsPure] using ih1, by simpa [World.runSteps, stepsHeap] using ih2⟩
+
+end steps
+
+/-! ### the code as found before repairs a890dff / e6dd388 (documentation; not property clauses) -/
+
+section asFound
+variable {α : Type} [Zero α] [One α] [Add α] [Sub α] [Mul α] [Div α] [Neg α] [Transc α]
+
+/-- `gamma_UNIFAC` as found ignores the composition: two calls with arrays of the same length
+return the same coefficients. -/
+theorem as_found_ignores_composition (tb : Tables α) (inter : Nat → Nat → Nat → α) (x x' : Array α) (T : α)
+    (h : x.size = x'.size) :
+    (gammaFAsFound tb inter x T).gamma = (gammaFAsFound tb inter x' T).gamma := by
+  unfold gammaFAsFound
+  rw [h]
+  split <;> rfl
+
+end asFound
+
+
+/-- `gamma_UNIFAC` as found writes the caller's array: with two chemicals with groups at
+positions 0 and 1 and the caller's `x = [1/2, 1/2]`, the array holds `[1, 1]` afterwards.
+(The repaired model never writes it: `args_pure`.) -/
+theorem as_found_writes_caller_array (tb : Tables ℝ) (inter : Nat → Nat → Nat → ℝ) (T : ℝ)
+    (hn : tb.nC = 2) (h0 : tb.index 0 = 0) :
+    ∃ x', (gammaFAsFound tb inter #[1/2, 1/2] T).xWritten = some x' ∧ vget x' 0 = 1
+      ∧ vget (#[1/2, 1/2] : Array ℝ) 0 ≠ 1 := by
+  refine ⟨tabA 2 fun j => if anyN tb.nC (fun i => tb.index i == j) then 1 else vget (#[1/2, 1/2] : Array ℝ) j,
+    ?_, ?_, ?_⟩
+  · unfold gammaFAsFound
+    simp [hn]
+  · rw [vget_tabA _ (by norm_num)]
+    simp [anyN, hn, h0]
+  · simp [vget]
+
+/-- `loggammacs_UNIFAC` as found differs from the UNIFAC combinatorial term by `2 ln V_i`. -/
+theorem as_found_combinatorial_differs (nC : Nat) (qs rs x : Nat → ℝ) {i : Nat} (hi : i < nC) :
+    vget (lgcUnifacAsFound nC qs rs x) i
+      = vget (lgcUnifac nC qs rs x) i - 2 * Real.log (rs i / sumN nC fun j => x j * rs j) := by
+  simp only [lgcUnifacAsFound, lgcUnifac, vget_tabA _ hi, log_real]
+  ring
+
 
 end ThermoVerif.Unifac
